@@ -60,6 +60,8 @@ def run(chk, replay=None):
         "witness does not violate it (counted in property_silent_byron_collateral_with_bootstrap_witness_rejected); "
         "every other case must agree with the specification in both directions",
         "required signers are the required_signers field (Alonzo and later); withdrawals are not generated",
+        "key addresses take a seeded shape per owner (enterprise / base key-key / base key-script / pointer); Conway and "
+        "Dijkstra cases write their sets with tag 258 in half of the cases; witness order is rotated by the seed",
         "a script-locked input puts no obligation on signature validation (script evaluation is another property)",
     ]
     cfg = "Witness.cfg" if chk.tier == "quick" else "WitnessThorough.cfg"
